@@ -500,7 +500,8 @@ impl Store {
             apply(c, None)?;
         }
         if b > 0 {
-            if let Some(c) = self.trace.get(i) {
+            // only an append can be cut short; for any other call the byte count means nothing (the call has not happened)
+            if let Some(c @ Call::Append { .. }) = self.trace.get(i) {
                 apply(c, Some(b))?;
             }
         }
@@ -770,6 +771,14 @@ impl Store {
                     }
                     std::thread::sleep(std::time::Duration::from_millis(5));
                 }
+            }
+            ["mkfile", name] => {
+                // an (empty) file that does not belong there, e.g. `mkfile d1` = 1.bitcask.data
+                let f = self.dir.join(long_name(name)?);
+                Some(match fs::File::create(&f) {
+                    Ok(_) => "ok".into(),
+                    Err(e) => format!("err {}", e),
+                })
             }
             ["waitfor", what, ms] => {
                 // wait for background activity without any client action: a hint file appearing
